@@ -64,7 +64,9 @@ RootBN(a, d) ==
 BinOps == {"wadd", "wsub", "wmul", "sadd", "ssub", "smul", "adiff", "and", "or", "xor", "min", "max", "gcd"}
 FlagOps == {"oadd", "osub", "omul", "cmp", "lcm"}        \* write the value and leave a flag in obs
 DivOps == {"div", "rem", "divceil"}                      \* need a non-zero second operand
-UnOps == {"wneg", "not", "revbits", "lz", "tz", "popcount", "bitlen", "invring", "npow2"}
+UnOps == {"wneg", "not", "revbits", "lz", "tz", "popcount", "bitlen", "invring", "npow2",
+          \* round trips through other representations: the register must come back unchanged (or reduced mod 2^64)
+          "rt_dec", "rt_hex", "rt_be", "rt_le", "rt_limbs", "via_u64"}
 ShiftOps == {"shl", "shr", "ashr", "rotl", "rotr", "oshl", "oshr"}
 ImmOps == {"pow", "root", "setbit1", "setbit0", "load"}
 ModOps == {"reduce", "addmod", "mulmod"}                  \* modulus = old value of the destination register
@@ -102,6 +104,8 @@ Apply(op, a, b, m, k, n) ==
     [] op = "bitlen" -> <<Mod2(FromNat(BitLen(a)), n), FALSE>>
     [] op = "invring" -> IF HasInvRing(a, n) THEN <<InvRingBN(a, n), TRUE>> ELSE <<m, FALSE>>
     [] op = "npow2" -> LET e == NextPow2Exp(a) IN IF e < n THEN <<Pow2(e), TRUE>> ELSE <<m, FALSE>>
+    [] op \in {"rt_dec", "rt_hex", "rt_be", "rt_le", "rt_limbs"} -> <<a, FALSE>>
+    [] op = "via_u64" -> <<Mod2(a, BMin(n, 64)), ~Lt2(a, 64)>>        \* wrapping_to::<u64>() and back
     [] op = "shl" -> <<ShlVal(a, k, n), FALSE>>
     [] op = "shr" -> <<IF k >= n THEN Zero ELSE ShrVal(a, k), FALSE>>
     [] op = "ashr" -> <<AShr(a, k, n), FALSE>>
@@ -203,6 +207,8 @@ NativeOK ==
          [] op = "load" -> v = k % M /\ f = (k >= M)
          [] op = "popcount" -> v = Cardinality({i \in 0..(n - 1) : (a \div 2 ^ i) % 2 = 1}) % M
          [] op = "not" -> v = M - 1 - a
+         [] op \in {"rt_dec", "rt_hex", "rt_be", "rt_le", "rt_limbs"} -> v = a
+         [] op = "via_u64" -> v = a /\ ~f
          [] op = "npow2" -> IF a = 0 THEN (IF n > 0 THEN f /\ v = 1 ELSE ~f)
                             ELSE LET p == CHOOSE e \in 0..n : 2 ^ e >= a /\ (e = 0 \/ 2 ^ (e - 1) < a)
                                  IN f = (p < n) /\ (f => v = 2 ^ p)
